@@ -51,7 +51,9 @@ def main():
             subprocess.run(["git", "-C", wt, "checkout", "-q", "--", "."], check=True)
             print("ok", mid)
         import json
-        json.dump([{"id": m[0], "property": m[1], "file": m[2], "what": m[5]} for m in M], open(os.path.join(HERE, "mutants.json"), "w"), indent=1)
+        extra_path = os.path.join(HERE, "extra_mutants.json")   # hand-made patches (e.g. reverts of fixes) kept next to the generated ones
+        extra = json.load(open(extra_path)) if os.path.exists(extra_path) else []
+        json.dump([{"id": m[0], "property": m[1], "file": m[2], "what": m[5]} for m in M] + extra, open(os.path.join(HERE, "mutants.json"), "w"), indent=1)
     finally:
         subprocess.run(["git", "-C", "/repo", "worktree", "remove", "--force", wt])
 
